@@ -320,7 +320,9 @@ class GriffeLoader:
 
         # First we expand wildcard imports and store the objects in a temporary `expanded` variable,
         # while also keeping track of the members representing wildcard import, to remove them later.
-        for member in obj.members.values():
+        # Loading an external package below can expand wildcards of the current object re-entrantly
+        # (packages wildcard-importing from each other): iterate on a copy of the members.
+        for member in list(obj.members.values()):
             # Handle a wildcard.
             if member.is_alias and member.wildcard:  # type: ignore[union-attr]
                 package = member.wildcard.split(".", 1)[0]  # type: ignore[union-attr]
@@ -366,7 +368,9 @@ class GriffeLoader:
 
         # Then we remove the members representing wildcard imports.
         for name in to_remove:
-            obj.del_member(name)
+            # The placeholder may already have been removed by a re-entrant expansion.
+            with suppress(KeyError):
+                obj.del_member(name)
 
         # Finally we process the collected objects.
         for new_member, alias_lineno, alias_endlineno in expanded:
